@@ -277,3 +277,22 @@ pub fn exp_rem(x: Q, y: Q) -> (Exp, Info, bool) {
     };
     (e, info, stepwise)
 }
+
+/// `x + y` / `x - y` (C01): exact at scale max(p, q) or signal
+pub fn exp_add_sub(x: Q, y: Q, sub: bool) -> (Exp, Info) {
+    let mut info = Info::default();
+    let m = x.s.max(y.s);
+    let xa = x.big().mul(&Big::pow10((m - x.s) as u32));
+    let ya = y.big().mul(&Big::pow10((m - y.s) as u32));
+    let s = if sub { xa.sub(&ya) } else { xa.add(&ya) };
+    info.near = near_edge(&s) || near_edge(&xa) || near_edge(&ya);
+    if !in_i128(&xa) || !in_i128(&ya) || !in_i128(&s) {
+        info.overflow = true;
+        (Exp::Signal, info)
+    } else if is_min(&xa) || is_min(&ya) || is_min(&s) {
+        info.edge = true;
+        (Exp::Either(s.to_i128().unwrap(), m), info)
+    } else {
+        (Exp::Exact(s.to_i128().unwrap(), m), info)
+    }
+}
